@@ -12,7 +12,8 @@
    parses every event the real encoders produce. *)
 From Coq Require Import ZArith Bool List.
 From ExaV Require Import gen.Gen_JsonKeys model.Model_Json proofs.Proofs_Json.
-From ExaV Require Import model.Model_JsonEvent proofs.Proofs_JsonEvent proofs.Proofs_JsonNeighbor proofs.Proofs_JsonEnvelope.
+From ExaV Require Import model.Model_JsonEvent proofs.Proofs_JsonEvent proofs.Proofs_JsonNeighbor proofs.Proofs_JsonEnvelope
+  model.Model_JsonFrag proofs.Proofs_JsonFrag.
 Import ListNotations.
 Open Scope Z_scope.
 
@@ -250,6 +251,33 @@ Theorem C13_update_event_line : forall e counter hdr body p direction u negotiat
      = map Some (neighbor_keys p (Some direction) ++ map fst (update_kvs u negotiated)).
 Proof. exact ev_update_ok. Qed.
 
+(* ---- json() bodies modelled exactly (Model_JsonFrag): the INET NLRI and the attribute object restricted to ORIGIN,
+   NEXT_HOP, MED, LOCAL_PREF, ATOMIC_AGGREGATE, AGGREGATOR, COMMUNITY, ORIGINATOR_ID, CLUSTER_LIST, for ALL decoded
+   values.  These discharge the fragment hypotheses of C13_update_event_wf for updates made of such routes and
+   attributes; every other class stays a fragment validated by the harness only (AS_PATH included: json.dumps of a dict) *)
+Theorem C13_inet_nlri_fragment : forall prefix pathinfo compact,
+  safe_key prefix = true -> opt_safe pathinfo ->
+  (wf_json (inet_json prefix pathinfo compact) = true /\ single_line (inet_json prefix pathinfo compact) = true)
+  /\ match pathinfo, compact with
+     | Some pi, _ => map member_key [kv_pair k_nlri (quoted prefix); kv_pair k_path_information (quoted pi)]
+                     = [Some k_nlri; Some k_path_information]
+     | None, false => map member_key [kv_pair k_nlri (quoted prefix)] = [Some k_nlri]
+     | None, true => True
+     end.
+Proof. exact inet_json_ok. Qed.
+
+Theorem C13_simple_attributes_fragment : forall l,
+  NoDup (map attr_code l) -> Forall attr_ok l ->
+  (wf_json (braces (attr_content l)) = true /\ single_line (braces (attr_content l)) = true)
+  /\ map member_key (map attr_member l) = map Some (map attr_name l)
+  /\ NoDup (map attr_name l).
+Proof. exact attr_content_ok. Qed.
+
+(* the key names used by the model are the ones of the regenerated representation table *)
+Theorem C13_simple_attribute_names_regenerated :
+  forallb (fun a => opt_eqb (key_name (attr_code a) attr_key_table) (Some (attr_name a))) attr_representatives = true.
+Proof. exact attr_names_regenerated. Qed.
+
 (* non-vacuity of the update theorems: two families, a next hop shared by two routes and reused in the other family,
    a withdraw, attributes *)
 Example C13_update_example :
@@ -304,3 +332,6 @@ Print Assumptions C13_notification_event.
 Print Assumptions C13_state_event.
 Print Assumptions C13_keepalive_event.
 Print Assumptions C13_update_event_line.
+Print Assumptions C13_inet_nlri_fragment.
+Print Assumptions C13_simple_attributes_fragment.
+Print Assumptions C13_simple_attribute_names_regenerated.
